@@ -19,7 +19,8 @@ class PyTpTraverse(Contract):
     props = ('C14',)
 
     def __init__(self):
-        self.loops = {0: Loop(self.inv, index='node__idx', decreases=lambda cx: self.vec(cx).len - cx.var('node__idx'))}
+        self.loops = {0: Loop(self.inv, index='node__idx', ghost_modifies=('visited',),
+                              decreases=lambda cx: self.vec(cx).len - cx.var('node__idx'))}
 
     def setup(self, eng, st, fn):
         self.views = {}
@@ -69,7 +70,8 @@ class PyTpTraverse(Contract):
         idx = cx.var('node__idx')
         vis = cx.st.ghost['visited']
         j = z3.Int('j!gc')
-        out = [('index-range', z3.And(0 <= idx, idx <= v.len))]
+        out = [('index-range', z3.And(0 <= idx, idx <= v.len)),
+               ('type-object-stays-visited', z3.Select(vis, M.py_type(z3.Const('self_base', Ref))))]
         for f in OWNED:
             out.append((f'every-{f}-of-the-nodes-so-far-was-visited',
                         forall([j], z3.Implies(z3.And(0 <= j, j < idx, v.sel(f, j) != NULL), z3.Select(vis, v.sel(f, j))),
